@@ -89,14 +89,16 @@ def entities_preserve_full : Prop :=
   ∀ (attr : Bool) (raw : List Char), decodeRefs attr (replaceEntitiesCtx attr raw) = decodeRefs attr raw
 
 /-- **entities_preserve_partial.**  For every raw text / raw attribute value outside the three narrow guards
-    (`glue`: K-C03-1, `ctlRef`: K-C03-2, `hexOverflow`: K-C03-3 — see `Spec/HtmlKnown.lean`), the bytes written by
+    (`glue`: K-C03-1, `ctlRef`/`crLfRef`: K-C03-2, `hexOverflow`: K-C03-3 — see `Spec/HtmlKnown.lean`; `crLfRef` is
+    not needed for the equality of units proved here but for reading it as an equality of parsed values, see there),
+    the bytes written by
     `parse.ReplaceEntities` decode — in the same context, by the HTML standard's rules, whatever follows — to
     exactly the units the input decodes to.  By induction over the text, for all inputs at once. -/
 theorem entities_preserve_partial (attr : Bool) (raw : List Char) (g : refsTrigger raw = false) :
     decodeRefs attr (replaceEntitiesCtx attr raw) = decodeRefs attr raw := by
   have hem : EmOk C03Tables.entitiesMap := emCheck_sound _ entities_table_sound.1
   simp only [refsTrigger, Bool.or_eq_false_iff] at g
-  obtain ⟨⟨hg, hc⟩, ho⟩ := g
+  obtain ⟨⟨⟨hg, hc⟩, ho⟩, _⟩ := g
   unfold replaceEntitiesCtx
   cases attr with
   | true =>
